@@ -173,3 +173,48 @@ func VerifH13dStreamReader() {
 	}
 	verifrt.Observe("lens", len(got), len(se))
 }
+
+// zzZeros serves n zero bytes after a fixed prefix.
+type zzZeros struct {
+	prefix []byte
+	n      int
+	served int
+}
+
+func (z *zzZeros) Read(p []byte) (int, error) {
+	k := 0
+	for k < len(p) && len(z.prefix) > 0 {
+		p[k] = z.prefix[0]
+		z.prefix = z.prefix[1:]
+		k++
+	}
+	for k < len(p) && z.n > 0 {
+		p[k] = 0
+		z.n--
+		k++
+	}
+	z.served += k
+	if k == 0 {
+		return 0, io.EOF
+	}
+	return k, nil
+}
+
+// VerifH13eRecordBoundaries: record.read takes exactly the announced content and padding for
+// lengths around the 16-bit boundaries, also when the record buffer is reused.
+func VerifH13eRecordBoundaries() {
+	lens := [][2]int{{0, 0}, {1, 7}, {65535, 0}, {65535, 1}, {65535, 255}, {65281, 255}, {65280, 255}, {32768, 128}}
+	first := lens[verifrt.Choose("first", len(lens))]
+	second := lens[verifrt.Choose("second", len(lens))]
+	typ := verifrt.Byte("type")
+	verifrt.Assume(typ != EndRequest)
+	rec := &record{}
+	for _, l := range [][2]int{first, second} {
+		cl, pad := l[0], l[1]
+		src := &zzZeros{prefix: []byte{1, typ, 0, 1, byte(cl >> 8), byte(cl), byte(pad), 0}, n: cl + pad}
+		buf, err := rec.read(src)
+		verifrt.Assert(err == nil, "record-read-ok")
+		verifrt.Assert(len(buf) == cl, "content-length-exact")
+		verifrt.Assert(src.served == 8+cl+pad, "consumes-content-and-padding")
+	}
+}
